@@ -17,6 +17,7 @@ from .base_facility import BaseFacilityState
 from .base_task import BaseTask, BaseTaskDependency, BaseTaskState
 from .base_worker import BaseWorkerState
 from .base_subproject_task import BaseSubProjectTask
+from .base_priority_rule import ResourcePriorityRuleMode, WorkplacePriorityRuleMode
 
 
 class BaseWorkflow(object, metaclass=abc.ABCMeta):
@@ -128,6 +129,15 @@ class BaseWorkflow(object, metaclass=abc.ABCMeta):
                         output_task_list=j["output_task_list"],
                         allocated_team_list=j["allocated_team_list"],
                         allocated_workplace_list=j["allocated_workplace_list"],
+                        workplace_priority_rule=WorkplacePriorityRuleMode(
+                            j.get("workplace_priority_rule", 0)
+                        ),
+                        worker_priority_rule=ResourcePriorityRuleMode(
+                            j.get("worker_priority_rule", -1)
+                        ),
+                        facility_priority_rule=ResourcePriorityRuleMode(
+                            j.get("facility_priority_rule", 0)
+                        ),
                         need_facility=j["need_facility"],
                         target_component=j["target_component"],
                         default_progress=j["default_progress"],
@@ -177,6 +187,15 @@ class BaseWorkflow(object, metaclass=abc.ABCMeta):
                         output_task_list=j["output_task_list"],
                         allocated_team_list=j["allocated_team_list"],
                         allocated_workplace_list=j["allocated_workplace_list"],
+                        workplace_priority_rule=WorkplacePriorityRuleMode(
+                            j.get("workplace_priority_rule", 0)
+                        ),
+                        worker_priority_rule=ResourcePriorityRuleMode(
+                            j.get("worker_priority_rule", 0)
+                        ),
+                        facility_priority_rule=ResourcePriorityRuleMode(
+                            j.get("facility_priority_rule", 0)
+                        ),
                         need_facility=j["need_facility"],
                         target_component=j["target_component"],
                         default_progress=j["default_progress"],
